@@ -35,7 +35,7 @@ MAP = {
     "src/algorithms/div/mod.rs": ["C14", "C03"], "src/algorithms/div/knuth.rs": ["C14", "C03"],
     "src/algorithms/div/small.rs": ["C14", "C03"], "src/algorithms/div/reciprocal.rs": ["C14"],
     "src/algorithms/add.rs": ["C15"], "src/algorithms/mul.rs": ["C15", "C02"], "src/algorithms/shift.rs": ["C15"],
-    "src/algorithms/ops.rs": ["C15"], "src/algorithms/mod.rs": ["C15"],
+    "src/algorithms/ops.rs": ["C15"], "src/algorithms/mod.rs": ["C15", "C14"],
     "src/bit_arr.rs": ["C20"], "src/macros.rs": ["C20", "C01"], "src/utils.rs": ["C16", "C09"],
     "src/support/alloy_rlp.rs": ["C16", "C17"], "src/support/rlp.rs": ["C16", "C17"], "src/support/fastrlp_03.rs": ["C16", "C17"],
     "src/support/fastrlp_04.rs": ["C16", "C17"], "src/support/scale.rs": ["C16", "C17"], "src/support/ssz.rs": ["C16", "C17"],
@@ -183,6 +183,9 @@ def run(n, seed, files, suite):
 
 def report():
     rs = [json.loads(l) for l in open(RES)]
+    for r in rs:        # a mutant in a feature-gated file that the default-feature build accepted but the harness build rejects
+        if r["status"] == "tool_error" and all("cargo build failed" in c.get("err", "") for c in r["checks"].values() if c["exit"] == 2):
+            r["status"] = "does_not_compile"
     st = {}
     for r in rs:
         st[r["status"]] = st.get(r["status"], 0) + 1
